@@ -50,6 +50,41 @@ type Unit struct {
 	maxPaths     int
 	missing      bool
 	entryHeld    map[string]bool
+	iterLists    []string
+	condAxioms   []condAxiom
+}
+
+// condAxiom is a quantified definitional axiom that is only added to obligations in which the symbol is applied to a bound variable.
+type condAxiom struct{ sym, ax string }
+
+// appliedToBound reports whether text contains an application of sym whose arguments mention a bound variable (name with '$').
+func appliedToBound(text, sym string) bool {
+	for i := 0; ; {
+		j := strings.Index(text[i:], sym)
+		if j < 0 {
+			return false
+		}
+		start := i + j
+		depth := 0
+		k := start
+		for ; k < len(text); k++ {
+			if text[k] == '(' {
+				depth++
+			} else if text[k] == ')' {
+				depth--
+				if depth == 0 {
+					break
+				}
+			}
+		}
+		if k > len(text)-1 {
+			k = len(text) - 1
+		}
+		if strings.Contains(text[start:k+1], "$") {
+			return true
+		}
+		i = start + len(sym)
+	}
 }
 
 func (u *Unit) fresh(prefix string, s Sort) string {
@@ -336,7 +371,40 @@ func (u *Unit) emit(st *State, kind, goal, note string) {
 	if n > 0 {
 		name = fmt.Sprintf("%s~p%d", name, n)
 	}
+	// skolemise, then split conjunctions (also under implications) into separate obligations: smaller queries, sharper diagnostics
+	if strings.Contains(goal, "(and ") || strings.Contains(goal, "(forall ") {
+		g2, decls := skolemizeGoal(goal)
+		u.decls = append(u.decls, decls...)
+		t, _ := parseSx(tokenize(g2), 0)
+		parts := splitGoal(t)
+		if len(parts) > 1 && len(parts) <= 24 {
+			hy := append([]string(nil), st.pc...)
+			for i, c := range parts {
+				o := &Obligation{Name: fmt.Sprintf("%s.%d", name, i), Func: u.name, Kind: kind, Hyps: hy, Goal: c.String(), Note: note}
+				u.obls = append(u.obls, o)
+			}
+			return
+		}
+		goal = g2
+	}
 	o := &Obligation{Name: name, Func: u.name, Kind: kind, Hyps: append([]string(nil), st.pc...), Goal: goal, Note: note}
+	u.obls = append(u.obls, o)
+}
+
+// emitReach records a satisfiability check of the current path condition whose first prefixN hypotheses describe the
+// state before some assumption (callee ensures, lock invariant) was added: unsat now but sat before = the assumption
+// is contradictory (everything after it would hold vacuously).
+func (u *Unit) emitReach(st *State, kind string, prefixN int, note string) {
+	n := u.oblCount[kind]
+	u.oblCount[kind] = n + 1
+	if n >= 3 {
+		return
+	}
+	name := fmt.Sprintf("%s/%s", u.name, kind)
+	if n > 0 {
+		name = fmt.Sprintf("%s~p%d", name, n)
+	}
+	o := &Obligation{Name: name, Func: u.name, Kind: kind, Hyps: append([]string(nil), st.pc...), Goal: "false", ExpectSat: true, Note: note, PrefixN: prefixN, HasPrefix: true}
 	u.obls = append(u.obls, o)
 }
 
@@ -355,7 +423,24 @@ func (u *Unit) finalize() {
 	// dedupe obligations with identical hyps+goal+kind prefix
 	for _, o := range u.obls {
 		o.Decls = u.decls
-		o.Hyps = append(append([]string(nil), u.axioms...), o.Hyps...)
+		ax := append([]string(nil), u.axioms...)
+		for _, ca := range u.condAxioms {
+			need := appliedToBound(o.Goal, ca.sym)
+			for _, h := range o.Hyps {
+				if need {
+					break
+				}
+				need = appliedToBound(h, ca.sym)
+			}
+			if need {
+				ax = append(ax, ca.ax)
+			}
+		}
+		nAx := len(ax)
+		o.Hyps = append(ax, o.Hyps...)
+		if o.HasPrefix {
+			o.PrefixN += nAx
+		}
 		if u.c != nil {
 			o.Property = u.c.Props
 		}
@@ -369,4 +454,25 @@ func sortedKeys[V any](m map[string]V) []string {
 	}
 	sort.Strings(ks)
 	return ks
+}
+
+// splitGoal splits a goal into conjuncts, distributing implications: (=> a (and b c)) gives (=> a b), (=> a c).
+func splitGoal(t *sx) []*sx {
+	switch t.head() {
+	case "and":
+		var out []*sx
+		for _, c := range t.list[1:] {
+			out = append(out, splitGoal(c)...)
+		}
+		return out
+	case "=>":
+		if len(t.list) == 3 {
+			var out []*sx
+			for _, c := range splitGoal(t.list[2]) {
+				out = append(out, &sx{list: []*sx{t.list[0], t.list[1], c}})
+			}
+			return out
+		}
+	}
+	return []*sx{t}
 }
